@@ -3,7 +3,7 @@ were created; they must not overwrite newer state.  STALE-ts, STALE-removal, MUS
 from .core import RuleResult, CheckFailure
 from .kernel import norm
 from .roles import ev_is, ts_name_kind, sync_ts_fields
-from .roles import CHAN_RECV
+from .roles import CHAN_RECV, recv_types
 from .roles import get_roles, DASHMAP_REMOVE
 from .symex import fmt, subterms, PathLimit
 
@@ -24,7 +24,7 @@ def rule_stale_ts(ctx):
     R = get_roles(ctx)
     if not R.maintenance:
         return r
-    consumers = [n for n in _maintenance_fns(ctx) if bool(CHAN_RECV & set(R.ext_calls.get(n, ()))) and prog.bodies[n].kind != 'closure']
+    consumers = [n for n in _maintenance_fns(ctx) if prog.bodies[n].kind != 'closure' and recv_types(ctx, n)]
     if len(consumers) < 2:
         raise CheckFailure('STALE-ts: expected the read-op and write-op consumers, found %s' % consumers)
     nwrites = 0
@@ -204,10 +204,9 @@ def rule_must_drain(ctx):
         b = prog.bodies[n]
         if b.kind == 'closure':
             continue
-        for _, t in b.calls():
-            if prog.call_targets(b, t)[1] in CHAN_RECV:
-                ty = t.get('self_ty', {}).get('s', '')
-                consumers[n] = 'read' if 'ReadOp' in ty else ('write' if 'WriteOp' in ty else '?')
+        ty = recv_types(ctx, n)
+        if ty:
+            consumers[n] = 'read' if 'ReadOp' in ty else ('write' if 'WriteOp' in ty else '?')
     for m in sorted(R.maintenance):
         leads = {n for n in _maintenance_fns(ctx) if n not in consumers and (prog.reachable_from([n]) & set(consumers))}
         def pol(n, b, d):
@@ -273,8 +272,7 @@ def rule_auth_ts_writers(ctx):
     if ctx.has_sync:
         writers = {x for x in prog.bodies if any(('write', a_, f_) in eff.direct.get(x, ()) for a_, f_ in sync_ts_fields(ctx))}
         maint = _maintenance_fns(ctx)
-        read_cons = {x for x in maint if prog.bodies[x].kind != 'closure' and any('ReadOp' in t.get('self_ty', {}).get('s', '') for _, t in prog.bodies[x].calls()
-                                                                                   if prog.call_targets(prog.bodies[x], t)[1] in CHAN_RECV)}
+        read_cons = {x for x in maint if prog.bodies[x].kind != 'closure' and 'ReadOp' in recv_types(ctx, x)}
         for fn in sorted(maint):
             if fn in read_cons or fn in R.maintenance or prog.bodies[fn].kind == 'closure':
                 continue
